@@ -3,6 +3,7 @@ package meshc
 
 import (
 	"fmt"
+	"math"
 
 	"github.com/EliCDavis/polyform/modeling"
 	zz "github.com/EliCDavis/polyform/zzverif"
@@ -221,3 +222,62 @@ func SameSnap(a, b Snapshot, tag string) {
 		}
 	}
 }
+
+func triMesh(name string) modeling.Mesh {
+	return SymMesh(name, modeling.TriangleTopology, zz.Bound("V"), zz.Bound("T"), 4)
+}
+func pointMesh(name string) modeling.Mesh {
+	return SymMesh(name, modeling.PointTopology, zz.Bound("V"), zz.Bound("V"), 4)
+}
+
+
+// bit-level snapshot: values are compared by their IEEE bit patterns, so an untouched cell is
+// syntactically identical before and after and costs no solver work.
+type bitSnap struct {
+	Topo  modeling.Topology
+	Idx   []int
+	Mats  []modeling.MeshMaterial
+	Names []string
+	Lens  []int
+	Bits  []uint64
+}
+
+func snapBits(m modeling.Mesh) bitSnap {
+	s := Snap(m)
+	b := bitSnap{Topo: s.Topo, Idx: s.Idx, Mats: s.Mats, Names: s.Names, Lens: s.Lens}
+	for _, v := range s.Vals {
+		b.Bits = append(b.Bits, math.Float64bits(v))
+	}
+	return b
+}
+
+func sameBits(a, b bitSnap, tag string) {
+	zz.Assert(a.Topo == b.Topo, tag+": topology changed")
+	zz.Assert(len(a.Idx) == len(b.Idx), tag+": index count changed")
+	if len(a.Idx) == len(b.Idx) {
+		for i := range a.Idx {
+			zz.Assert(a.Idx[i] == b.Idx[i], tag+": index value changed")
+		}
+	}
+	zz.Assert(len(a.Mats) == len(b.Mats), tag+": material count changed")
+	if len(a.Mats) == len(b.Mats) {
+		for i := range a.Mats {
+			zz.Assert(a.Mats[i].PrimitiveCount == b.Mats[i].PrimitiveCount, tag+": material range changed")
+			zz.Assert(a.Mats[i].Material == b.Mats[i].Material, tag+": material pointer changed")
+		}
+	}
+	zz.Assert(len(a.Names) == len(b.Names), tag+": attribute set changed")
+	if len(a.Names) == len(b.Names) {
+		for i := range a.Names {
+			zz.Assert(a.Names[i] == b.Names[i], tag+": attribute name changed")
+			zz.Assert(a.Lens[i] == b.Lens[i], tag+": attribute length changed")
+		}
+	}
+	zz.Assert(len(a.Bits) == len(b.Bits), tag+": attribute data size changed")
+	if len(a.Bits) == len(b.Bits) {
+		for i := range a.Bits {
+			zz.Assert(a.Bits[i] == b.Bits[i], tag+": attribute value changed")
+		}
+	}
+}
+
